@@ -733,10 +733,24 @@ fn is_hinted(u: &Universe, s: Id) -> bool {
 
 /// Replays a call sequence on a fresh bare SolverCache and checks every answer.
 pub fn c20_build(case: &Case, hist: &[COp]) -> Result<(), (String, String)> {
+    c20_build_with(case, hist, false)
+}
+
+/// `rev`: the provider's filter_candidates answers in reverse listing order; the cached matching /
+/// non-matching lists must then be exactly those answers ("as filter_candidates defines").
+pub fn c20_build_with(case: &Case, hist: &[COp], rev: bool) -> Result<(), (String, String)> {
     let u = &case.u;
     let sem = Sem::new(u, &case.p);
     let mut prov = Prov::new(u);
     prov.logging = true;
+    prov.filter_reversed = rev;
+    let as_filter = |v: &[Id]| -> Vec<Id> {
+        let mut v = v.to_vec();
+        if rev {
+            v.reverse();
+        }
+        v
+    };
     let log = prov.log.clone();
     let cache = SolverCache::new(prov);
     let mut fetched_c: BTreeSet<Id> = BTreeSet::new();
@@ -760,8 +774,8 @@ pub fn c20_build(case: &Case, hist: &[COp]) -> Result<(), (String, String)> {
                 let c = cache.get_or_cache_matching_candidates(VersionSetId(v)).now_or_never().expect("sync").map_err(|_| ("cancelled".to_string(), String::new()))?;
                 fetched_c.insert(u.vsets[v as usize].name);
                 let got: Vec<u32> = c.iter().map(|s| s.0).collect();
-                if got != sem.matching(v) {
-                    return Err(("matching".into(), format!("step {step}: matching({v}) = {got:?}, filter_candidates defines {:?}", sem.matching(v))));
+                if got != as_filter(sem.matching(v)) {
+                    return Err(("matching".into(), format!("step {step}: matching({v}) = {got:?}, filter_candidates defines {:?}", as_filter(sem.matching(v)))));
                 }
                 (got, c.as_ptr() as usize)
             }
@@ -769,8 +783,8 @@ pub fn c20_build(case: &Case, hist: &[COp]) -> Result<(), (String, String)> {
                 let c = cache.get_or_cache_non_matching_candidates(VersionSetId(v)).now_or_never().expect("sync").map_err(|_| ("cancelled".to_string(), String::new()))?;
                 fetched_c.insert(u.vsets[v as usize].name);
                 let got: Vec<u32> = c.iter().map(|s| s.0).collect();
-                if got != sem.non_matching(v) {
-                    return Err(("non-matching".into(), format!("step {step}: non_matching({v}) = {got:?}, filter_candidates defines {:?}", sem.non_matching(v))));
+                if got != as_filter(sem.non_matching(v)) {
+                    return Err(("non-matching".into(), format!("step {step}: non_matching({v}) = {got:?}, filter_candidates defines {:?}", as_filter(sem.non_matching(v)))));
                 }
                 // partition: matching ∪ non-matching = candidates, disjoint
                 let mut all: Vec<u32> = got.clone();
@@ -886,6 +900,33 @@ pub fn check_c20(case: &Case, depth: usize, order: (usize, u64, u32), acc: &mut 
         }
     }
     acc.add("call_sequences", total);
+    // the same with a provider whose filter_candidates answers in reverse listing order (shorter sequences)
+    {
+        let d2 = depth.min(2);
+        let total2 = (n as u64).pow(d2 as u32);
+        for k in 0..total2 {
+            let mut x = k;
+            let hist: Vec<COp> = (0..d2)
+                .map(|_| {
+                    let o = ops[(x % n as u64) as usize];
+                    x /= n as u64;
+                    o
+                })
+                .collect();
+            acc.evaluations += 1;
+            if let Err((sig, what)) = c20_build_with(case, &hist, true) {
+                acc.violation(viol(
+                    "C20",
+                    &format!("{sig}:reversed-filter"),
+                    format!("{what} (filter_candidates answers in reverse listing order)"),
+                    json!({"kind": "c20", "case": case, "history": hist, "filter_reversed": true, "universe": case.u.describe(&case.p)}),
+                    order,
+                ));
+                break;
+            }
+        }
+        acc.add("call_sequences", total2);
+    }
     acc.mark_nontrivial(case_hash(case));
     // re-entrant use from inside sort_candidates during a full solve
     for cb in [SortCallback::DepsOfSorted, SortCallback::CandsOfMentioned] {
@@ -1314,7 +1355,7 @@ pub fn replay_c20(v: &serde_json::Value) -> Vec<String> {
     }
     if v["kind"] == "c20" {
         let hist: Vec<COp> = serde_json::from_value(v["history"].clone()).expect("history");
-        match c20_build(&case, &hist) {
+        match c20_build_with(&case, &hist, v["filter_reversed"] == true) {
             Ok(_) => vec![],
             Err((sig, _)) => vec![sig],
         }
